@@ -18,7 +18,7 @@ YOUR TASK: make ONE small, realistic change to the kanidm source (the kind of sl
 
 Then write a DEMONSTRATION: a new test (a `#[test]`/`#[qs_test]`/`#[idm_test]` added to the relevant test module, or a small standalone program) that FAILS with your change and PASSES without it, showing the property violated on a concrete input/sequence.
 
-Practicalities (sandbox is offline): `source /w/out/rust_env.sh; export CARGO_NET_OFFLINE=true CARGO_TARGET_DIR=/tmp/seed-target` before cargo commands (the target dir is shared with other experimenters; cargo may print "Blocking waiting for file lock" — just wait). Build/test with `cargo test --offline -p <crate> --lib <filter>` (crate for server/lib is `kanidmd_lib`; its test binary takes several minutes to build the first time; lints are `deny` there: unused imports/variables fail the build). Run at least the existing tests of the modules you touched and of the modules that use them, with the change applied, and confirm they pass; then confirm your demonstration fails with the change and passes without it (`git stash`/re-apply inside your worktree is fine).
+Practicalities (sandbox is offline): `source /w/out/rust_env.sh; export CARGO_NET_OFFLINE=true CARGO_TARGET_DIR=/tmp/seed-target-{pid}` before cargo commands (this target dir is yours alone and pre-warmed with the dependency builds; never use /tmp/seed-target or another target dir; after switching between patched and unpatched sources `touch` the files you changed so cargo rebuilds them, and check the "Compiling" line names your worktree). Build/test with `cargo test --offline -p <crate> --lib <filter>` (crate for server/lib is `kanidmd_lib`; its test binary takes several minutes to build the first time; lints are `deny` there: unused imports/variables fail the build). Run at least the existing tests of the modules you touched and of the modules that use them, with the change applied, and confirm they pass; then confirm your demonstration fails with the change and passes without it (`git stash`/re-apply inside your worktree is fine).
 
 Deliverables, written to /tmp/seed/{pid}-out/ :
   patch.diff  — `git diff` of ONLY the source change (no demonstration in it)
